@@ -44,7 +44,7 @@ class Scenario:
 class Observation:
     __slots__ = ("outcomes", "okeys", "final", "final_key", "deadlock", "hang", "locked", "mutex_owned",
                  "trace", "points", "yield_points", "events", "followup", "harness_errors", "reader_values",
-                 "observer_findings", "cond_stats")
+                 "observer_findings", "cond_stats", "observer_stats")
 
 
 def outcome_key(op, out):
@@ -188,6 +188,7 @@ class ScenarioRunner:
         ob.mutex_owned = sorted({c.mutex.name for c in conds.values() if c.mutex.owner is not None})
         ob.cond_stats = {k: dict(c.stats) for k, c in conds.items()}
         ob.observer_findings = getattr(observer, "findings", []) if observer else []
+        ob.observer_stats = (getattr(observer, "observations", 0), getattr(observer, "files_read", 0))
         ob.final = absstate.abstract(self.rundir, self.layout, scn.pids, [(p, f) for p in scn.pids for f in scn.fmts])
         ob.final_key = ob.final.key()
         ob.followup = []
